@@ -201,7 +201,8 @@ class ProbUGrammar(TaggedUGrammar[float, U, V, W]):
                     seed=seed + 7 * i if seed else None,
                 )
             self.sampling_map[S] = P_list
-        self._int2start = list(self.starts)
+        # same order as the weights handed to the start sampler below
+        self._int2start = list(self.start_tags.keys())
         self._start_sampler = VoseSampler(
             np.array(
                 [v for v in self.start_tags.values()],
